@@ -10,6 +10,7 @@ import Sudachi.Model.Cli
 import Sudachi.Model.Sched
 import Sudachi.Model.Rewrite
 import Sudachi.Model.Subset
+import Sudachi.Model.Split
 /-! Line protocol dispatcher: one case per line in, one answer per line out. -/
 namespace Driver
 
@@ -30,6 +31,7 @@ def answer (line : String) : String :=
     | "C18" => Sched.handle rest
     | "C14" => Rewrite.handle rest
     | "C11" => Subset.handle op rest
+    | "C09" => Split.handle op rest
     | _ => "bad-op"
   | _ => "bad-op"
 
